@@ -24,7 +24,7 @@ var (
 	VArr      = [4]int{4, 3, 2, 1}
 	VPtr      = &fn.S2{A: 1, B: 2}
 	VNilPtr   *fn.S2
-	VFunc     = fn.FuncTable(0)
+	VFunc                 = fn.FuncTable(0)
 	VIface    interface{} = 5
 	VErr      error       = fn.ErrTable(0)
 	VNilErr   error
